@@ -22,7 +22,7 @@ PID = "C16"
 BOUNDS = ("identifier bodies: ASCII, first char a letter of {q,z,j,Q,Z,J}, then {q,z,j,Q,Z,J,_,0,7}; body length 2 (quick) "
           "and 1..3 (thorough); quote style in {none, \"..\", `..`, [..]} as lexed by the dialect; 1-3 dotted parts; "
           "positions: FROM, target, qualifier, alias, column ref, INSERT column list, CREATE VIEW column list, "
-          "schema qualifier, 3-part name, across two statements")
+          "schema qualifier, 3-part name, CTE name (also as qualifier), across two statements")
 STUBS = ["sqllineage.runner.split -> statement handles of the template",
          "SqlFluffLineageAnalyzer._list_specific_statement_segment -> pre-parsed, symbolised tree"]
 ASSUMPTIONS = ["sqlfluff yields the same tree shape for every identifier body over the alphabet (validated per replayed witness)",
